@@ -195,8 +195,329 @@ let handle_ser toks =
             | None -> "NONE")
   | _ -> None
 
+
+(* ================================================================================================
+   C16 (helper payloads), C10 (vector outputs), C12 (routing): readers and writer models.
+
+   Argument encodings (every token is free of blanks):
+     <cps>    code points as '.'-joined decimals; '-' (or nothing) = the empty string
+     <ostr>   `str or None`:  N  |  S:<cps>
+     <lstr>   multi-valued field (list of str):  L:<cps>|<cps>|...   (L: alone = the empty list, L:- = [''])
+     <big>    an integer of any size in decimal (optional leading '-')
+     <dec>    exact decimal  <neg 0/1>,<mantissa big>,<scale big>   = +-mantissa / 10^scale
+     <fnum>   F:<dec> | nan | inf | -inf            <amount>  F:<dec> | nan | inf | -inf | bad
+     <vdate>  vCard birthday / rev:  N | D:<looks_like_datetime 0/1>:<cps>
+     <vgeo>   vCard lat / lng:       N | G:<cps of str(value)>
+     <q>      exact rational  <big>  or  <big>/<big>
+     <scale>  Python int  I:<big>   or Python float with exact value q  Q:<q>   (SVG model: I:<z> | H:<twice>)
+     <hex>    bytes in hexadecimal; '-' = empty
+   Answers print strings as <cps>, optional strings as <ostr>, rationals as <big>/<big>. *)
+let explode_pos p = let rec go p acc = match p with Coq_xH -> true :: acc | Coq_xO q -> go q (false :: acc) | Coq_xI q -> go q (true :: acc) in go p []
+(* decimal string of a positive (bits most significant first): schoolbook doubling on a little-endian digit buffer *)
+let string_of_posbig p =
+  let buf = Buffer.create 32 in
+  let digits = ref [| 0 |] and n = ref 1 in
+  L.iter (fun bit ->
+    let carry = ref (if bit then 1 else 0) in
+    for i = 0 to !n - 1 do
+      let v = 2 * (!digits).(i) + !carry in (!digits).(i) <- v mod 10; carry := v / 10
+    done;
+    if !carry > 0 then begin
+      if !n = Array.length !digits then digits := Array.append !digits (Array.make (Array.length !digits) 0);
+      (!digits).(!n) <- !carry; incr n
+    end) (explode_pos p);
+  for i = !n - 1 downto 0 do Buffer.add_char buf (Char.chr (48 + (!digits).(i))) done;
+  Buffer.contents buf
+let string_of_zbig = function Z0 -> "0" | Zpos p -> string_of_posbig p | Zneg p -> "-" ^ string_of_posbig p
+let zbig s =
+  let neg = S.length s > 0 && S.get s 0 = '-' in
+  let ten = z_of_int 10 in
+  let acc = ref Z0 in
+  for i = (if neg then 1 else 0) to S.length s - 1 do
+    let c = Char.code (S.get s i) - 48 in
+    if c < 0 || c > 9 then failwith ("bad integer " ^ s);
+    acc := BinInt.Z.add (BinInt.Z.mul !acc ten) (z_of_int c)
+  done;
+  if neg then BinInt.Z.opp !acc else !acc
+let string_of_q (q : QArith_base.coq_Q) = string_of_zbig q.QArith_base.coq_Qnum ^ "/" ^ string_of_posbig q.QArith_base.coq_Qden
+let q_of_string s : QArith_base.coq_Q =
+  match S.split_on_char '/' s with
+  | [n] -> { QArith_base.coq_Qnum = zbig n; coq_Qden = Coq_xH }
+  | [n; d] -> (match zbig d with Zpos p -> { QArith_base.coq_Qnum = zbig n; coq_Qden = p } | _ -> failwith "bad denominator")
+  | _ -> failwith ("bad rational " ^ s)
+let string_of_half h = string_of_zbig h ^ "/2"
+
+let has_prefix p s = S.length s >= S.length p && S.sub s 0 (S.length p) = p
+let after p s = S.sub s (S.length p) (S.length s - S.length p)
+let ostr_of_string s = if s = "N" then None else if has_prefix "S:" s then Some (cps_of_string (after "S:" s)) else failwith ("bad optional string " ^ s)
+let lstr_of_string s =
+  if not (has_prefix "L:" s) then failwith ("bad string list " ^ s) else
+  let r = after "L:" s in if r = "" then [] else L.map cps_of_string (S.split_on_char '|' r)
+let string_of_ostr = function None -> "N" | Some l -> "S:" ^ string_of_cps l
+let cpsbig l = if l = [] then "-" else S.concat "." (L.map string_of_zbig l)
+let dec_of_string s =
+  match S.split_on_char ',' s with
+  | [n; m; sc] -> { Helpers.d_neg = (n = "1"); d_mant = zbig m; d_scale = zbig sc }
+  | _ -> failwith ("bad decimal " ^ s)
+let fnum_of_string s =
+  if s = "nan" then Helpers.NNan else if s = "inf" then Helpers.NInf false else if s = "-inf" then Helpers.NInf true
+  else if has_prefix "F:" s then Helpers.NFin (dec_of_string (after "F:" s)) else failwith ("bad number " ^ s)
+let amount_of_string s =
+  if s = "nan" then Helpers.ANaN else if s = "inf" then Helpers.AInf false else if s = "-inf" then Helpers.AInf true
+  else if s = "bad" then Helpers.ABad
+  else if has_prefix "F:" s then Helpers.AFin (dec_of_string (after "F:" s)) else failwith ("bad amount " ^ s)
+let vdate_of_string s =
+  if s = "N" then None else
+  match S.split_on_char ':' s with
+  | ["D"; ok; t] -> Some (cps_of_string t, ok = "1")
+  | _ -> failwith ("bad date " ^ s)
+let vgeo_of_string s = if s = "N" then None else if has_prefix "G:" s then Some (true, cps_of_string (after "G:" s)) else failwith ("bad coordinate " ^ s)
+let string_of_dectriple ((neg, m), sc) = Printf.sprintf "%s,%s,%s" (string_of_bool neg) (string_of_zbig m) (string_of_zbig sc)
+let join_or_dash sep l = if l = [] then "-" else S.concat sep l
+let pynum_of_string s =
+  if has_prefix "I:" s then Iter.PInt (zbig (after "I:" s))
+  else if has_prefix "Q:" s then Iter.PFloat (q_of_string (after "Q:" s)) else failwith ("bad scale " ^ s)
+(* table  c=<cps>,c=<cps>,...  ->  function (missing entries give the empty text) *)
+let table_of_string s =
+  let tbl = if s = "-" then [] else
+    L.map (fun e -> match S.split_on_char '=' e with [k; v] -> (int_of_string k, cps_of_string v) | _ -> failwith "bad table") (S.split_on_char ',' s) in
+  fun z -> (try L.assoc (int_of_z z) tbl with Not_found -> [])
+let string_of_rgb ((r, g), b) = Printf.sprintf "%s,%s,%s" (string_of_q r) (string_of_q g) (string_of_q b)
+let string_of_point (x, y) = string_of_q x ^ "," ^ string_of_q y
+let string_of_cells = function
+  | None -> "!"
+  | Some l -> join_or_dash "|" (L.map (fun (c, r) -> string_of_zbig c ^ "," ^ string_of_zbig r) l)
+(* paint list of the EPS / PDF readers; the cells of a stroke are computed for grid pitch s and page top `top` *)
+let string_of_paint s top = function
+  | VectorReader.Stroke (c, w, segs) ->
+      Printf.sprintf "S:%s:%s:%d:%s" (string_of_rgb c) (string_of_q w) (L.length segs) (string_of_cells (VectorReader.stroke_cells s top w segs))
+  | VectorReader.FillRect (c, lo, hi) -> Printf.sprintf "R:%s:%s:%s" (string_of_rgb c) (string_of_point lo) (string_of_point hi)
+  | VectorReader.FillPage c -> "P:" ^ string_of_rgb c
+let string_of_paints s top l = join_or_dash ";" (L.map (string_of_paint s top) l)
+
+let svg_scale_of_string s =
+  if has_prefix "I:" s then Svg.SInt (zbig (after "I:" s)) else if has_prefix "H:" s then Svg.SHalf (zbig (after "H:" s)) else failwith ("bad svg scale " ^ s)
+let svgver_of_string s =
+  if s = "N" then None else
+  match S.split_on_char ':' s with
+  | ["I"; z] -> Some (Svg.VInt (zbig z))
+  | ["F"; ip; frac] -> Some (Svg.VFloat (zbig ip, cps_of_string frac))
+  | _ -> failwith ("bad svgversion " ^ s)
+(* one path of an SVG document:  stroke;stroke-opacity;fill;class;scale;cells;fillrect   ('!' = not available) *)
+let string_of_rect = function
+  | None -> "!"
+  | Some (((a, b), c), d) -> S.concat "," (L.map string_of_half [a; b; c; d])
+let svg_doc_line page width height viewbox version xmlns id cls title desc paths =
+  let len = function None -> "-" | Some (q, u) -> q ^ ":" ^ string_of_cps u in
+  Printf.sprintf "OK %s %s %s %s %s %s %s %s %s %s %s"
+    (match page with None -> "-" | Some (w, h) -> w ^ "," ^ h) (len width) (len height)
+    (match viewbox with None -> "-" | Some l -> join_or_dash "," l)
+    (string_of_ostr version) (string_of_ostr xmlns) (string_of_ostr id) (string_of_ostr cls) (string_of_ostr title) (string_of_ostr desc)
+    (join_or_dash " " paths)
+
+let handle_ext toks =
+  match toks with
+  (* ---------------- C16: models ---------------- *)
+  | ["w_wifi"; ssid; password; security; security_upper; hidden] ->
+      Some ("OK " ^ string_of_cps (Helpers.make_wifi_data (cps_of_string ssid) (ostr_of_string password) (ostr_of_string security)
+                                     (cps_of_string security_upper) (hidden = "1")))
+  | ["w_mecard"; name; reading; email; phone; videophone; memo; nickname; birthday; url; pobox; roomno; houseno; city; prefecture; zipcode; country] ->
+      let o = ostr_of_string and l = lstr_of_string in
+      Some ("OK " ^ string_of_cps (Helpers.make_mecard_data
+        { Helpers.mc_name = cps_of_string name; mc_reading = o reading; mc_email = l email; mc_phone = l phone; mc_videophone = l videophone;
+          mc_memo = o memo; mc_nickname = o nickname; mc_birthday = o birthday; mc_url = l url; mc_pobox = o pobox; mc_roomno = o roomno;
+          mc_houseno = o houseno; mc_city = o city; mc_prefecture = o prefecture; mc_zipcode = o zipcode; mc_country = o country }))
+  | ["w_vcard"; name; displayname; email; phone; fax; videophone; memo; nickname; birthday; url; pobox; street; city; region; zipcode; country;
+     org; lat; lng; source; rev; title; photo_uri; cellphone; homephone; workphone] ->
+      let o = ostr_of_string and l = lstr_of_string in
+      Some (res_cps (Helpers.make_vcard_data
+        { Helpers.vc_name = cps_of_string name; vc_displayname = cps_of_string displayname; vc_email = l email; vc_phone = l phone; vc_fax = l fax;
+          vc_videophone = l videophone; vc_memo = o memo; vc_nickname = o nickname; vc_birthday = vdate_of_string birthday; vc_url = l url;
+          vc_pobox = o pobox; vc_street = o street; vc_city = o city; vc_region = o region; vc_zipcode = o zipcode; vc_country = o country;
+          vc_org = o org; vc_lat = vgeo_of_string lat; vc_lng = vgeo_of_string lng; vc_source = o source; vc_rev = vdate_of_string rev;
+          vc_title = l title; vc_photo_uri = l photo_uri; vc_cellphone = l cellphone; vc_homephone = l homephone; vc_workphone = l workphone }))
+  | ["w_geo"; lat; lng] -> Some ("OK " ^ string_of_cps (Helpers.make_geo_data (fnum_of_string lat) (fnum_of_string lng)))
+  | ["w_mailto"; to_; cc; bcc; subject; body] ->
+      Some (res_cps (Helpers.make_make_email_data (lstr_of_string to_) (lstr_of_string cc) (lstr_of_string bcc) (ostr_of_string subject) (ostr_of_string body)))
+  (* w_epc <encodable: 8 characters 0/1 for charset 1..8> name iban amount text reference bic purpose <encoding: N | S:<cps> | I:<big>> *)
+  | ["w_epc"; enc; name; iban; amount; text; reference; bic; purpose; encoding] ->
+      let o = ostr_of_string in
+      let e = if encoding = "N" then Helpers.EncNone else if has_prefix "S:" encoding then Helpers.EncName (cps_of_string (after "S:" encoding))
+              else if has_prefix "I:" encoding then Helpers.EncNum (zbig (after "I:" encoding)) else failwith "bad encoding" in
+      Some (match Helpers.make_epc_qr_data_std (bits_of_string enc)
+                    { Helpers.epc_name = o name; epc_iban = o iban; epc_amount = amount_of_string amount; epc_text = o text;
+                      epc_reference = o reference; epc_bic = o bic; epc_purpose = o purpose; epc_enc = e } with
+            | Ok (cs, payload) -> Printf.sprintf "OK %d %s" (int_of_z cs) (string_of_cps payload)
+            | Err e -> "ERR " ^ string_of_exn e)
+  (* ---------------- C16: independent readers ---------------- *)
+  (* r_mecard <prefix> <payload>  ->  OK <fields> <pieces>
+       fields: key=value=component,component,... joined by ';' (value unescaped; components = the raw value split at unescaped ',')
+       pieces: the raw texts between unescaped ';' joined by ';' *)
+  | ["r_mecard"; prefix; payload] ->
+      let p = cps_of_string prefix and s = cps_of_string payload in
+      Some (match HelpersReader.mecard_read p s, HelpersReader.mecard_pieces_read p s with
+            | Some fields, Some pieces ->
+                let raws = L.filter_map (fun pc -> if pc = [] then None else HelpersReader.cut_esc (z_of_int 58) false pc) pieces in
+                if L.length raws <> L.length fields then "NONE" else
+                Printf.sprintf "OK %s %s"
+                  (join_or_dash ";" (L.map2 (fun (k, v) (_, raw) ->
+                     Printf.sprintf "%s=%s=%s" (string_of_cps k) (string_of_cps v)
+                       (S.concat "," (L.map string_of_cps (HelpersReader.mecard_components raw)))) fields raws))
+                  (S.concat ";" (L.map string_of_cps pieces))
+            | _, _ -> "NONE")
+  (* r_vcard <payload>  ->  OK <entries> <content lines> <pieces between CRLF>
+       entries: name=raw value=vcard_unescape(raw)=component,component,...  joined by ';' (components: raw split at unescaped ';', unescaped) *)
+  | ["r_vcard"; payload] ->
+      let s = cps_of_string payload in
+      Some (match HelpersReader.vcard_read s with
+            | Some entries ->
+                Printf.sprintf "OK %s %s %s"
+                  (join_or_dash ";" (L.map (fun (k, raw) ->
+                     Printf.sprintf "%s=%s=%s=%s" (string_of_cps k) (string_of_cps raw) (string_of_cps (HelpersReader.vcard_unescape raw))
+                       (S.concat "," (L.map string_of_cps (HelpersReader.vcard_components raw)))) entries))
+                  (S.concat ";" (L.map string_of_cps (HelpersReader.vcard_content_lines s)))
+                  (S.concat ";" (L.map string_of_cps (HelpersReader.split_crlf s)))
+            | None -> "NONE")
+  (* r_mailto <payload> -> OK <raw to-part> <key=raw value=percent-decoded UTF-8 text or !> joined by ';' *)
+  | ["r_mailto"; payload] ->
+      Some (match HelpersReader.mailto_read (cps_of_string payload) with
+            | Some (to_, kvs) ->
+                Printf.sprintf "OK %s %s" (string_of_cps to_)
+                  (join_or_dash ";" (L.map (fun (k, v) ->
+                     Printf.sprintf "%s=%s=%s" (string_of_cps k) (string_of_cps v)
+                       (match HelpersReader.uri_text v with Some t -> string_of_cps t | None -> "!")) kvs))
+            | None -> "NONE")
+  | ["r_geo"; payload] ->
+      Some (match HelpersReader.geo_read (cps_of_string payload) with
+            | Some (a, b) -> Printf.sprintf "OK %s %s" (string_of_dectriple a) (string_of_dectriple b)
+            | None -> "NONE")
+  (* r_epc <payload text> -> OK <lines joined by ';'> <amount of line 8: neg,mantissa,scale | NONE> *)
+  | ["r_epc"; payload] ->
+      let lines = HelpersReader.epc_read_lines (cps_of_string payload) in
+      Some (Printf.sprintf "OK %s %s" (S.concat ";" (L.map string_of_cps lines))
+              (match L.nth_opt lines 7 with
+               | Some l -> (match HelpersReader.epc_read_amount l with Some t -> string_of_dectriple t | None -> "NONE")
+               | None -> "NONE"))
+  (* ---------------- C10: SVG ---------------- *)
+  (* w_svg rows size <scale I:|H:> border xmldecl svgns title desc svgid svgclass lineclass omitsize unit encoding <svgversion N|I:z|F:ip:frac> nl
+           draw_transparent <17 colour tokens as for png_parts> *)
+  | "w_svg" :: rows :: size :: scale :: border :: xmldecl :: svgns :: title :: desc :: svgid :: svgclass :: lineclass :: omitsize :: unit
+    :: encoding :: svgversion :: nl :: draw_transparent :: colours ->
+      let sz = zi size and o = ostr_of_string in
+      Some (res_cps (Svg.write_svg (zrows_of_string rows) (Classify.align_aux_matrix sz) sz (color_opts_of colours)
+        { Svg.so_scale = svg_scale_of_string scale; so_border = ozi border; so_xmldecl = (xmldecl = "1"); so_svgns = (svgns = "1");
+          so_title = o title; so_desc = o desc; so_svgid = o svgid; so_svgclass = o svgclass; so_lineclass = o lineclass;
+          so_omitsize = (omitsize = "1"); so_unit = o unit; so_encoding = o encoding; so_svgversion = svgver_of_string svgversion;
+          so_nl = (nl = "1"); so_draw_transparent = (draw_transparent = "1") }))
+  (* r_svg <document> -> OK <page w,h> <width q:unit> <height q:unit> <viewBox q,q,q,q> version xmlns id class title desc path path ...
+     (SvgReader.v: every number is a multiple of 1/2).  r_svgq: the same answer from SvgReaderDec.v (arbitrary decimals). *)
+  | ["r_svg"; doc] ->
+      Some (match SvgReader.read_svg (cps_of_string doc) with
+            | None -> "NONE"
+            | Some d ->
+                let len = function None -> None | Some (h, u) -> Some (string_of_half h, u) in
+                svg_doc_line (match SvgReader.page_user d with None -> None | Some (w, h) -> Some (string_of_half w, string_of_half h))
+                  (len d.SvgReader.d_width) (len d.SvgReader.d_height)
+                  (match d.SvgReader.d_viewbox with None -> None | Some l -> Some (L.map string_of_half l))
+                  d.SvgReader.d_version d.SvgReader.d_xmlns d.SvgReader.d_id d.SvgReader.d_class d.SvgReader.d_title d.SvgReader.d_desc
+                  (L.map (fun p ->
+                     S.concat ";" [string_of_ostr p.SvgReader.p_stroke; string_of_ostr p.SvgReader.p_stroke_opacity; string_of_ostr p.SvgReader.p_fill;
+                                   string_of_ostr p.SvgReader.p_class;
+                                   (match SvgReader.path_scale p with Some h -> string_of_half h | None -> "!");
+                                   string_of_cells (SvgReader.stroke_cells p); string_of_rect (SvgReader.fill_rect p)]) d.SvgReader.d_paths))
+  | ["r_svgq"; doc] ->
+      Some (match SvgReaderDec.read_svg_q (cps_of_string doc) with
+            | None -> "NONE"
+            | Some d ->
+                let len = function None -> None | Some (q, u) -> Some (string_of_q q, u) in
+                svg_doc_line (match SvgReaderDec.page_user_q d with None -> None | Some (w, h) -> Some (string_of_q w, string_of_q h))
+                  (len d.SvgReaderDec.qd_width) (len d.SvgReaderDec.qd_height)
+                  (match d.SvgReaderDec.qd_viewbox with None -> None | Some l -> Some (L.map string_of_q l))
+                  d.SvgReaderDec.qd_version d.SvgReaderDec.qd_xmlns d.SvgReaderDec.qd_id d.SvgReaderDec.qd_class d.SvgReaderDec.qd_title
+                  d.SvgReaderDec.qd_desc
+                  (L.map (fun p ->
+                     S.concat ";" [string_of_ostr p.SvgReaderDec.qp_stroke; string_of_ostr p.SvgReaderDec.qp_stroke_opacity;
+                                   string_of_ostr p.SvgReaderDec.qp_fill; string_of_ostr p.SvgReaderDec.qp_class;
+                                   (match SvgReaderDec.path_scale_q p with Some q -> string_of_q q | None -> "!");
+                                   string_of_cells (SvgReaderDec.stroke_cells_q p); string_of_rect (SvgReaderDec.fill_rect_q p)]) d.SvgReaderDec.qd_paths))
+  (* ---------------- C10: EPS / PDF / PGF readers ----------------
+     <s> = grid pitch (the scaling factor), <top> = device height of the top edge of row 0 of the page; both <q>.
+     paints joined by ';':  S:r,g,b:<line width>:<number of segments>:<cells c,r|c,r|... or !>   R:r,g,b:x0,y0:x1,y1   P:r,g,b (whole page) *)
+  | ["r_eps"; file; s; top] ->
+      Some (match VectorReader.eps_read (bytes_of_hex file) with
+            | Some d ->
+                let (((a, b), c), e) = d.VectorReader.eps_box in
+                Printf.sprintf "OK %s,%s,%s,%s %s" (string_of_zbig a) (string_of_zbig b) (string_of_zbig c) (string_of_zbig e)
+                  (string_of_paints (q_of_string s) (q_of_string top) d.VectorReader.eps_paint)
+            | None -> "NONE")
+  | ["r_pdf_content"; content; s; top] ->
+      Some (match VectorReader.pdf_read_content (bytes_of_hex content) with
+            | Some l -> "OK " ^ string_of_paints (q_of_string s) (q_of_string top) l
+            | None -> "NONE")
+  (* r_pdf_file <number of objects> <file> -> OK <xref position> <offset,generation,in-use;...> <MediaBox q,q,q,q> </Length> <stream hex> *)
+  | ["r_pdf_file"; nobj; file] ->
+      Some (match VectorReader.pdf_read_file (zi nobj) (bytes_of_hex file) with
+            | Some d ->
+                Printf.sprintf "OK %s %s %s %s %s" (string_of_zbig d.VectorReader.pd_xref_pos)
+                  (join_or_dash ";" (L.map (fun ((o, g), u) -> Printf.sprintf "%s,%s,%s" (string_of_zbig o) (string_of_zbig g) (string_of_bool u))
+                                       d.VectorReader.pd_entries))
+                  (join_or_dash "," (L.map string_of_q d.VectorReader.pd_mediabox)) (string_of_zbig d.VectorReader.pd_length)
+                  (if d.VectorReader.pd_stream = [] then "-" else hex_of_zlist d.VectorReader.pd_stream)
+            | None -> "NONE")
+  (* r_pgf <file> <s> <top> -> OK <unit ostr> <strokes joined by ';'>
+     stroke = <colour ostr>~<line width>~<number of segments>~<cells>~<segments x1,y1,x2,y2|... in the document's unit> *)
+  | ["r_pgf"; file; s; top] ->
+      Some (match VectorReader.pgf_read (bytes_of_hex file) with
+            | Some d ->
+                Printf.sprintf "OK %s %s" (string_of_ostr d.VectorReader.pgf_unit)
+                  (join_or_dash ";" (L.map (fun ((c, w), segs) ->
+                     Printf.sprintf "%s~%s~%d~%s~%s" (string_of_ostr c) (string_of_q w) (L.length segs)
+                       (string_of_cells (VectorReader.stroke_cells (q_of_string s) (q_of_string top) w segs))
+                       (join_or_dash "|" (L.map (fun (a, b) -> string_of_point a ^ "," ^ string_of_point b) segs))) d.VectorReader.pgf_strokes))
+            | None -> "NONE")
+  (* ---------------- C10: EPS / PDF / PGF writer models ---------------- *)
+  | ["w_eps"; rows; size; date; scale; border; dark; light] ->
+      (match color_of_string dark with
+       | None -> Some "ERR dark=None is outside the model"
+       | Some d -> Some (res_bytes (Vector.write_eps (zrows_of_string rows) (zi size) (zi size) (cps_of_string date) (pynum_of_string scale) (ozi border)
+                                      d (color_of_string light))))
+  (* <colortab>: texts of str(1/255.0*c) for the colour components that occur:  c=<cps>,c=<cps>  or - *)
+  | ["w_pdf_content"; colortab; rows; size; scale; border; dark; light] ->
+      (match color_of_string dark with
+       | None -> Some "ERR dark=None is outside the model"
+       | Some d -> Some (res_cps (Vector.pdf_content (table_of_string colortab) (zrows_of_string rows) (zi size) (zi size) (pynum_of_string scale)
+                                    (ozi border) d (color_of_string light))))
+  (* <deflated>: the compressed stream of the real file (zlib is not modelled: deflate := fun _ -> these bytes) *)
+  | ["w_pdf"; deflated; colortab; rows; size; date; scale; border; dark; light] ->
+      (match color_of_string dark with
+       | None -> Some "ERR dark=None is outside the model"
+       | Some d ->
+           let z = bytes_of_hex deflated in
+           Some (res_bytes (Vector.write_pdf (fun _ -> z) (table_of_string colortab) (zrows_of_string rows) (zi size) (zi size) (cps_of_string date)
+                              (pynum_of_string scale) (ozi border) d (color_of_string light))))
+  | ["w_tex"; rows; size; date; scale; border; dark; unit; url] ->
+      Some (res_bytes (Vector.write_tex (zrows_of_string rows) (zi size) (zi size) (cps_of_string date) (pynum_of_string scale) (ozi border)
+                         (ostr_of_string dark) (cps_of_string unit) (ostr_of_string url)))
+  (* ---------------- C12: routing ----------------
+     build_config <filename cps | -> <k=v;k=v;... | ->   keys and values (repr(value)) as <cps>; answer: the resulting association list
+     sorted by key, in the same encoding.   resolve <kind cps | -> <filename cps> <is_stream 0/1> -> OK <serializer key cps> <gzip 0/1> *)
+  | ["build_config"; filename; config] ->
+      let cfg = if config = "-" then [] else
+        L.map (fun e -> match S.split_on_char '=' e with [k; v] -> (cps_of_string k, cps_of_string v) | _ -> failwith "bad config entry")
+          (S.split_on_char ';' config) in
+      let out = Route.build_config cfg (if filename = "-" then None else Some (cps_of_string filename)) in
+      let key (k, _) = L.map int_of_z k in
+      let sorted = L.stable_sort (fun a b -> compare (key a) (key b)) out in
+      Some (join_or_dash ";" (L.map (fun (k, v) -> string_of_cps k ^ "=" ^ string_of_cps v) sorted))
+  | ["resolve"; kind; filename; is_stream] ->
+      Some (match Route.resolve (if kind = "-" then None else Some (cps_of_string kind)) (cps_of_string filename) (is_stream = "1") with
+            | Ok (key, gz) -> Printf.sprintf "OK %s %s" (string_of_cps key) (string_of_bool gz)
+            | Err e -> "ERR " ^ string_of_exn e)
+  | _ -> None
+
 let handle toks =
   match handle_ser toks with Some a -> a | None ->
+  match handle_ext toks with Some a -> a | None ->
   match toks with
   | ["classify"; size; border; rows] ->
       string_of_zrows (classify_matrix (zi size) (zi border) (rows_of_string rows))
